@@ -76,6 +76,20 @@ fn main() {
     let mut big = false;
     let mut hang_secs = 30u64;
     let mut kinds: Option<Vec<u8>> = None;
+    let mut hashes_out: Option<String> = None;
+    if args.get(1).map(|s| s.as_str()) == Some("--merge") {
+        // distinct count over hash files written by earlier runs
+        let mut all: Vec<u64> = Vec::new();
+        for f in &args[2..] {
+            if let Ok(b) = std::fs::read(f) {
+                all.extend(b.chunks_exact(8).map(|c| u64::from_le_bytes([c[0], c[1], c[2], c[3], c[4], c[5], c[6], c[7]])));
+            }
+        }
+        all.sort_unstable();
+        all.dedup();
+        println!("{}", all.len());
+        return;
+    }
     let mut i = 1;
     while i < args.len() {
         match args[i].as_str() {
@@ -83,6 +97,7 @@ fn main() {
             "--threads" => { threads = args[i + 1].parse().unwrap(); i += 1 }
             "--force-backend" => { force = Some(args[i + 1].parse().unwrap()); i += 1 }
             "--big" => big = true,
+            "--hashes" => { hashes_out = Some(args[i + 1].clone()); i += 1 }
             "--kinds" => { kinds = Some(args[i + 1].split(',').filter(|x| !x.is_empty()).map(|x| x.parse().unwrap()).collect()); i += 1 }
             "--hang-secs" => { hang_secs = args[i + 1].parse().unwrap(); i += 1 }
             x => files.push(x.to_string()),
@@ -130,7 +145,7 @@ fn main() {
                     CUR_LEN[t].store(0, Ordering::SeqCst);
                 }
             }
-            (ctx.stats, ctx.violations, bad_lines)
+            (ctx.stats, ctx.violations, bad_lines, ctx.hashes)
         }));
     }
     // watchdog
@@ -197,11 +212,22 @@ fn main() {
     let mut total = Stats::default();
     let mut viol: Vec<Violation> = Vec::new();
     let mut bad = 0;
+    let mut hashes: Vec<u64> = Vec::new();
     for h in handles {
-        let (s, v, b) = h.join().unwrap();
+        let (s, v, b, hs) = h.join().unwrap();
         total.merge(&s);
         viol.extend(v);
         bad += b;
+        hashes.extend(hs);
+    }
+    if let Some(p) = hashes_out {
+        hashes.sort_unstable();
+        hashes.dedup();
+        let mut bytes = Vec::with_capacity(hashes.len() * 8);
+        for h in &hashes {
+            bytes.extend_from_slice(&h.to_le_bytes());
+        }
+        let _ = std::fs::write(p, bytes);
     }
     let out = std::io::stdout();
     let mut out = out.lock();
